@@ -9,8 +9,10 @@
 #include <string.h>
 #include <sys/time.h>
 #include <sys/wait.h>
+#include <time.h>
 #include <unistd.h>
 
+#include <algorithm>
 #include <set>
 #include <string>
 #include <vector>
@@ -28,6 +30,8 @@ int __real_gettimeofday(struct timeval*, void*);
 pid_t __real_fork(void);
 int __real_pipe(int*);
 int __real_close(int);
+int __real_usleep(useconds_t);
+int __real_nanosleep(const struct timespec*, struct timespec*);
 }
 
 namespace {
@@ -40,8 +44,9 @@ struct ProcAbort { std::string why; };
 
 // R(n) read <=n bytes of stdin; R*EOF read until end of input; W1/W2(n) write n pattern bytes to stdout/stderr;
 // C(fd) close a stream; X(code) exit; K(sig) die by signal; Z idle forever; P linger (one step in which nothing
-// observable happens); I(sig) ignore a signal from now on
-enum StepKind { ST_R, ST_RALL, ST_W1, ST_W2, ST_C, ST_X, ST_K, ST_Z, ST_P, ST_I };
+// observable happens); I(sig) ignore a signal from now on; T(t) sleep until virtual time t (microseconds since the
+// call began; round 5): the step is enabled once the virtual clock has reached t
+enum StepKind { ST_R, ST_RALL, ST_W1, ST_W2, ST_C, ST_X, ST_K, ST_Z, ST_P, ST_I, ST_T };
 struct Step { StepKind k; int64_t arg; };
 
 struct Cmd { int32_t op; int32_t arg; };
@@ -91,6 +96,15 @@ struct Proc {
   uint64_t fast_forwards = 0;
   // --- the child's view of its standard streams (round 3)
   int fdmask = -1;              // bit i set = descriptor i was open when the helper started (-1: not asked yet)
+  // --- signals arriving in the calling process at fixed virtual times (round 5): the first one sig_phase us after the
+  // call began, then one every sig_period us (sig_period 0: only that one).  A signal that arrives while the parent
+  // sleeps in poll/waitpid/usleep/nanosleep/a blocking read or write ends that sleep with EINTR at the signal's time; one
+  // that arrives while the parent is running has no visible effect (its handler runs and returns).
+  bool sig_mode = false;
+  uint64_t sig_period = 0, sig_phase = 0;
+  uint64_t sig_eintr = 0;       // EINTR answers given because of these signals
+  uint64_t overrun_limit = 0;   // if non-zero: a child that is still running at this virtual time was not ended by the timeout
+  size_t syscall_cap = SYSCALL_CAP;
 } P;
 
 int g_bad_kill = 0;  // kill() aimed at something that is not the child (pid <= 0 would signal whole process groups)
@@ -101,6 +115,35 @@ vfe::Env g_env;
 [[noreturn]] void do_abort(const std::string& why) {
   P.active = false;  // everything after this point (including destructors during unwinding) uses the real calls
   throw ProcAbort{why};
+}
+
+constexpr uint64_t NEVER = UINT64_MAX;
+
+// virtual time of the first signal strictly after t
+uint64_t next_signal_after(uint64_t t) {
+  if (!P.sig_mode) return NEVER;
+  if (t < P.sig_phase) return P.sig_phase;
+  if (!P.sig_period) return NEVER;
+  return P.sig_phase + ((t - P.sig_phase) / P.sig_period + 1) * P.sig_period;
+}
+
+// the time the child's pending T(t) step is waiting for (NEVER: the child is not waiting for the clock)
+uint64_t child_wake_time() {
+  if (!P.alive || P.pc >= P.script.size() || P.script[P.pc].k != ST_T) return NEVER;
+  return (uint64_t)P.script[P.pc].arg;
+}
+
+// Every change of the virtual clock goes through here: "a timeout ends the child" is decided as "the child is not
+// still running `slack` after the timeout expired" (overrun_limit = timeout + slack, set by run_call).
+void advance_clock(uint64_t to) {
+  if (to <= P.vclock) return;
+  if (P.overrun_limit && to > P.overrun_limit && P.alive) {
+    uint64_t was = P.vclock;
+    P.vclock = to;
+    do_abort(vf::fmt("timeout-overrun: the child is still running (no fatal signal sent) at virtual time %llu us, the timeout/deadline of %llu us expired long ago (allowed slack %llu us); clock before this step %llu us, %llu sleeping calls of the parent were interrupted by signals (EINTR)",
+        (unsigned long long)to, (unsigned long long)P.timeout_hint, (unsigned long long)(P.overrun_limit - P.timeout_hint), (unsigned long long)was, (unsigned long long)P.sig_eintr));
+  }
+  P.vclock = to;
 }
 
 void wait_waitable() {
@@ -162,6 +205,7 @@ bool child_step() {
     case ST_X: command('X', (int)s.arg); wait_waitable(); P.term_status = ((int)s.arg & 0xFF) << 8; P.pc++; break;
     case ST_K: command('K', (int)s.arg); wait_waitable(); P.term_status = (int)s.arg; P.pc++; break;
     case ST_Z: return false;
+    case ST_T: if (P.vclock < (uint64_t)s.arg) return false; P.pc++; break;  // the child's own sleep is over
   }
   P.child_steps++;
   P.activity++;
@@ -172,14 +216,36 @@ bool child_step() {
 bool owned_fd(int fd) { return P.active && P.owned.count(fd); }
 
 void count_syscall() {
-  P.vclock++;  // no system call is free
-  if (++P.syscalls > SYSCALL_CAP) do_abort(vf::fmt("livelock: more than %zu system calls by the parent in one call", SYSCALL_CAP));
+  advance_clock(P.vclock + 1);  // no system call is free
+  if (++P.syscalls > P.syscall_cap) do_abort(vf::fmt("livelock: more than %zu system calls by the parent in one call (virtual time %llu us, %llu sleeping calls interrupted by signals)", P.syscall_cap, (unsigned long long)P.vclock, (unsigned long long)P.sig_eintr));
+}
+
+bool child_can_step_now() {
+  if (!P.alive || P.pc >= P.script.size()) return false;
+  const Step& s = P.script[P.pc];
+  return s.k != ST_Z && !(s.k == ST_T && P.vclock < (uint64_t)s.arg);
+}
+
+// The parent sleeps (nothing it waits for is there, the child cannot move right now) until `end` (NEVER: no timeout).
+// The clock goes to whatever comes first: the child's own wake-up time, the end of the sleep, the next signal.  Ties:
+// the child first, then the timeout, then the signal (a signal interrupts a sleep only if it arrives strictly inside it).
+enum Wake { WK_CHILD, WK_END, WK_SIGNAL, WK_NOTHING };
+Wake sleep_until(uint64_t end, EintrSite site) {
+  uint64_t w = child_wake_time(), s = next_signal_after(P.vclock);
+  uint64_t m = std::min(w, std::min(end, s));
+  if (m == NEVER) return WK_NOTHING;
+  advance_clock(m);
+  if (m == w) return WK_CHILD;
+  if (m == end) return WK_END;
+  P.sig_eintr++;
+  P.eintr_given[site]++;
+  return WK_SIGNAL;
 }
 
 // Choice point in front of one of the parent's system calls: let the child run ahead.
 void pre_syscall() {
   count_syscall();
-  bool can = P.alive && P.pc < P.script.size() && P.script[P.pc].k != ST_Z;
+  bool can = child_can_step_now();
   int c = g_env.choose(can ? 4 : 1);
   int k = c == 3 ? 1000000 : c;
   for (int i = 0; i < k; i++) if (!child_step()) break;
@@ -188,7 +254,7 @@ void pre_syscall() {
 // Choice point: a signal whose handler was installed without SA_RESTART arrives while the parent sleeps in
 // (or, for read/write, is inside) this call.  Non-default answer: the call fails with EINTR.  At most 2 per call.
 bool eintr_here(EintrSite site) {
-  if (P.eintr_left <= 0) return false;
+  if (P.eintr_left <= 0 || P.sig_mode) return false;  // with signals at fixed times those are the only source of EINTR
   if (g_env.choose(2) != 1) return false;
   P.eintr_left--;
   P.eintr_given[site]++;
@@ -207,6 +273,7 @@ void set_nb(int fd, bool nb) {
 const char* child_block_reason() {
   if (P.pc < P.script.size() && (P.script[P.pc].k == ST_W1 || P.script[P.pc].k == ST_W2)) return "writing to a full pipe nobody reads";
   if (P.pc < P.script.size() && P.script[P.pc].k == ST_Z) return "idle forever";
+  if (P.pc < P.script.size() && P.script[P.pc].k == ST_T) return "asleep";
   return "waiting for input that never comes";
 }
 
@@ -247,7 +314,11 @@ extern "C" pid_t __wrap_waitpid(pid_t pid, int* status, int flags) {
     // blocking wait: the parent sleeps until the child terminates (so the child runs on its own) or a signal arrives
     if (P.alive && eintr_here(EI_WAITPID)) { errno = EINTR; return -1; }
     while (P.alive) {
-      if (!child_step()) do_abort(std::string("deadlock: the parent blocks in waitpid() while the child is blocked (") + child_block_reason() + ")");
+      if (child_step()) continue;
+      Wake w = sleep_until(NEVER, EI_WAITPID);  // the child sleeps until a later time and/or signals keep arriving
+      if (w == WK_CHILD) continue;
+      if (w == WK_SIGNAL) { errno = EINTR; return -1; }
+      do_abort(std::string("deadlock: the parent blocks in waitpid() while the child is blocked (") + child_block_reason() + ")");
     }
   }
   return __real_waitpid(pid, status, flags);
@@ -262,13 +333,15 @@ extern "C" int __wrap_poll(struct pollfd* fds, nfds_t n, int timeout) {
   // must not starve the child, which a real kernel would keep running meanwhile
   if (++P.polls_without_child_progress >= 3) child_step();
   bool first = true;
+  uint64_t sleep_end = NEVER;
   for (;;) {
     int rc = __real_poll(fds, n, 0);
-    if (rc > 0) {
-      // Spin detection.  The same descriptors report the same events as in the previous poll, the parent touched
-      // neither its pipes nor the child in between, and the child made no step: nothing but the clock can change what
-      // the parent does next.  Real time passes while it spins; if the child cannot move either, the spin lasts until
-      // the next instant the parent could be waiting for.
+    if (rc > 0 || (rc == 0 && timeout == 0)) {
+      // Spin detection.  The poll returns at once (something is ready, or the parent asked with a zero timeout), the same
+      // descriptors report the same events as in the previous poll, the parent touched neither its pipes nor the child in
+      // between, and the child made no step: nothing but the clock can change what the parent does next.  Real time
+      // passes while it spins; if the child cannot move either, the spin lasts until the next instant the parent (or
+      // the child: a pending T step) could be waiting for.  Signals do not matter here: the parent never sleeps.
       uint64_t sig = 1469598103934665603ull;
       for (nfds_t i = 0; i < n; i++) for (uint64_t v : {(uint64_t)(unsigned)fds[i].fd, (uint64_t)(unsigned short)fds[i].events, (uint64_t)(unsigned short)fds[i].revents}) sig = (sig ^ v) * 1099511628211ull;
       if (sig == P.spin_sig && P.activity == P.spin_activity) P.spin_count++;
@@ -280,20 +353,56 @@ extern "C" int __wrap_poll(struct pollfd* fds, nfds_t n, int timeout) {
           uint64_t target = P.vclock + P.spin_jump;
           if (P.spin_jump < (1ull << 40)) P.spin_jump *= 2;
           if (P.timeout_hint && P.timeout_hint < (1ull << 62) && target < P.timeout_hint) target = P.timeout_hint;
-          if (target > P.vclock && target < (1ull << 62)) { P.vclock = target; P.fast_forwards++; }
+          uint64_t wake = child_wake_time();
+          if (wake != NEVER && wake > P.vclock && target > wake) target = wake;  // the child's own sleep ends first
+          if (target > P.vclock && target < (1ull << 62)) { advance_clock(target); P.fast_forwards++; }
         }
       }
       P.spin_activity = P.activity;
     }
     if (rc != 0 || timeout == 0) return rc;
     // nothing ready: the parent would sleep; a signal may end the sleep, otherwise the child gets to move
-    if (first && eintr_here(EI_POLL)) { errno = EINTR; return -1; }
+    if (first) {
+      sleep_end = timeout < 0 ? NEVER : P.vclock + (uint64_t)timeout * 1000;
+      if (eintr_here(EI_POLL)) { errno = EINTR; return -1; }
+    }
     first = false;
     if (child_step()) continue;
-    if (timeout < 0) do_abort("deadlock: the parent sleeps in poll() without a timeout while the child cannot make progress");
-    P.vclock += (uint64_t)timeout * 1000;
+    switch (sleep_until(sleep_end, EI_POLL)) {
+      case WK_CHILD: continue;                      // the child's T step is enabled now
+      case WK_END: return 0;                        // timed out
+      case WK_SIGNAL: errno = EINTR; return -1;     // interrupted: the clock stands at the signal's arrival time
+      case WK_NOTHING: break;
+    }
+    do_abort("deadlock: the parent sleeps in poll() without a timeout while the child cannot make progress");
+  }
+}
+
+// usleep/nanosleep are not called by Process.cc / Poll on HEAD; a tree that sleeps with them is run in virtual time too.
+static int virtual_sleep(uint64_t us, uint64_t* remaining) {
+  pre_syscall();
+  uint64_t end = P.vclock + us;
+  if (eintr_here(EI_POLL)) { if (remaining) *remaining = us; errno = EINTR; return -1; }
+  for (;;) {
+    while (child_step()) {}
+    Wake w = sleep_until(end, EI_POLL);
+    if (w == WK_CHILD) continue;
+    if (w == WK_SIGNAL) { if (remaining) *remaining = end - P.vclock; errno = EINTR; return -1; }
     return 0;
   }
+}
+
+extern "C" int __wrap_usleep(useconds_t us) {
+  if (!P.active) return __real_usleep(us);
+  return virtual_sleep(us, nullptr);
+}
+
+extern "C" int __wrap_nanosleep(const struct timespec* req, struct timespec* rem) {
+  if (!P.active || !req) return __real_nanosleep(req, rem);
+  uint64_t left = 0;
+  int r = virtual_sleep((uint64_t)req->tv_sec * 1000000 + ((uint64_t)req->tv_nsec + 999) / 1000, &left);
+  if (r < 0 && rem) { rem->tv_sec = left / 1000000; rem->tv_nsec = (left % 1000000) * 1000; }
+  return r;
 }
 
 extern "C" ssize_t __wrap_read(int fd, void* buf, size_t n) {
@@ -309,7 +418,12 @@ extern "C" ssize_t __wrap_read(int fd, void* buf, size_t n) {
   for (;;) {
     r = __real_read(fd, buf, n);
     if (r >= 0 || (errno != EAGAIN && errno != EWOULDBLOCK)) break;
-    if (!child_step()) { set_nb(fd, false); do_abort("deadlock: the parent blocks in read() on a pipe the child will never write to or close"); }
+    if (child_step()) continue;
+    Wake w = sleep_until(NEVER, EI_READ);
+    if (w == WK_CHILD) continue;
+    set_nb(fd, false);
+    if (w == WK_SIGNAL) { errno = EINTR; return -1; }  // a blocking read that has transferred nothing is interrupted
+    do_abort("deadlock: the parent blocks in read() on a pipe the child will never write to or close");
   }
   int e = errno;
   set_nb(fd, false);
@@ -333,8 +447,12 @@ extern "C" ssize_t __wrap_write(int fd, const void* buf, size_t n) {
     r = __real_write(fd, (const char*)buf + done, n - done);
     if (r > 0) { done += r; continue; }
     if (r < 0 && (errno == EAGAIN || errno == EWOULDBLOCK)) {
-      if (!child_step()) { set_nb(fd, false); do_abort(vf::fmt("deadlock: the parent blocks in write() (%zu of %zu bytes written, pipe full) while the child is blocked too", done, n)); }
-      continue;
+      if (child_step()) continue;
+      Wake w = sleep_until(NEVER, EI_WRITE);
+      if (w == WK_CHILD) continue;
+      set_nb(fd, false);
+      if (w == WK_SIGNAL) { if (done > 0) return (ssize_t)done; errno = EINTR; return -1; }  // partial count, or EINTR if nothing was written
+      do_abort(vf::fmt("deadlock: the parent blocks in write() (%zu of %zu bytes written, pipe full) while the child is blocked too", done, n));
     }
     break;
   }
